@@ -162,7 +162,8 @@ CHECKS = {
             "enumeration of every file-operation boundary x {kill, torn write, short write, 5 errnos} via in-process interposition in forked children; before/after state oracle",
             "For 46 (thorough: 60+) scenarios of octave_write (incl. lenient schema repair), atomic_write_octave and CLI write, the fault-free run is traced and "
             "every boundary is then hit with a kill, a torn write, a short write and five injected errnos (thorough: all ordered pairs for two "
-            "errnos); the supervising process checks that the target holds old or complete new bytes after a kill, is untouched "
+            "errnos), a refused rename (EIO/EACCES) is followed by a kill or ENOSPC at each of the next 12 boundaries, and a target path that is a "
+            "directory is tried; the supervising process checks that the target holds old or complete new bytes after a kill, is untouched "
             "with no temp file left after a returned error, matches canonical_hash and keeps its permission bits after success, "
             "and that fsync precedes replace. Exhaustive over the traced boundaries of the listed scenarios.",
             "faults are injected at Python file-operation granularity by patching os/io/builtins (pathlib and tempfile resolve "
@@ -181,7 +182,7 @@ CHECKS = {
     "C19": ("exploration",
             "generated trees x path strings under a file-operation trace with before/after snapshots; exhaustive short schema names; reference and URI pools",
             "Path strings built from a segment pool (.., every symlink kind incl. dangling and self-referential, allowed/disallowed/"
-            "compound/upper-case extensions, NUL, over-long, ~ and $HOME spellings with HOME pointing at the outside tree) are handed to nine entry points over a planted sandbox + outside tree: "
+            "compound/upper-case extensions, NUL, over-long, ~ and $HOME spellings with HOME pointing at the outside tree) are handed to twelve entry points (three of them with a base_hash) over a planted sandbox + outside tree: "
             "a path the harness classifies as traversal / symlink / wrong extension must be refused with no open/create/replace/"
             "unlink in the trace and no change of either tree; no call may mutate or leak the outside tree. Schema names of <=3 "
             "characters over 66 symbols (quick: <=2 + sample) may only open files in schema directories; frozen references must "
